@@ -108,6 +108,48 @@ def msg_to_socket(m):
     raise ValueError(k)
 
 
+class View:
+    """What a ringer standing in the tower can tell about Wheatley: which touch it is, the turn it is at,
+    whether it is ringing at all, and the places announced for the human bells of each row.  Everything is
+    taken from the calls the Bot makes on its rhythm object (the public `Rhythm` interface) and from the
+    main thread's sleeps - never from the Bot's private fields, so the simulated ringers keep working when
+    those are renamed."""
+
+    def __init__(self):
+        self.touch = 0
+        self.turn = None          # (row, place, bell, user_controlled) of the turn last entered
+        self.in_wait = False
+        self.ringing = False
+        self.idle_sleeps = 0
+        self.rows = {}            # row -> {place: human bell}
+
+    def on_init(self):
+        self.touch += 1
+        self.rows = {}
+        self.turn = None
+        self.ringing = True
+        self.idle_sleeps = 0
+
+    def on_expect(self, bell, row, place):
+        self.rows.setdefault(row, {})[place] = bell
+
+    def on_wait(self, row, place, bell, uc):
+        self.turn = (row, place, bell, uc)
+        self.in_wait = True
+        self.ringing = True
+        self.idle_sleeps = 0
+
+    def on_wait_end(self):
+        self.in_wait = False
+
+    def on_main_sleep(self):
+        # the tick loop alternates wait / 10 ms sleep; two sleeps in a row outside a wait: the idle loop
+        if not self.in_wait:
+            self.idle_sleeps += 1
+            if self.idle_sleeps >= 2:
+                self.ringing = False
+
+
 class RecRhythm(Rhythm):
     """Recording proxy between the Bot and the real rhythm object."""
 
@@ -120,9 +162,14 @@ class RecRhythm(Rhythm):
         self.inner.return_to_mainloop()
 
     def wait_for_bell_time(self, current_time, bell, row_number, place, user_controlled, stroke):
-        self.inner.wait_for_bell_time(current_time, bell, row_number, place, user_controlled, stroke)
+        self.sim.view.on_wait(row_number, place, bell.number, bool(user_controlled))
+        try:
+            self.inner.wait_for_bell_time(current_time, bell, row_number, place, user_controlled, stroke)
+        finally:
+            self.sim.view.on_wait_end()
 
     def expect_bell(self, expected_bell, row_number, place, expected_stroke):
+        self.sim.view.on_expect(expected_bell.number, row_number, place)
         self.sim.rec(["r_expect", expected_bell.number, row_number, place, expected_stroke.is_hand()])
         self.inner.expect_bell(expected_bell, row_number, place, expected_stroke)
 
@@ -141,6 +188,7 @@ class RecRhythm(Rhythm):
         self.inner.on_bell_ring(bell, stroke, real_time)
 
     def initialise_line(self, stage, user_controls_treble, start_time, number_of_user_controlled_bells):
+        self.sim.view.on_init()
         self.sim.rec(["r_init", stage, bool(user_controls_treble), number_of_user_controlled_bells])
         self.sim.init_start_times.append(start_time)
         self.inner.initialise_line(stage, user_controls_treble, start_time, number_of_user_controlled_bells)
@@ -198,6 +246,8 @@ class Sim:
         self.connect_urls = []
         self.strikes = []        # (t, bell, by) every strike accepted by the server
         self.handler = None      # the handler thread that is running or asleep (None: socket thread idle)
+        self.view = View()
+        self.tower = None
         self.deferred = []       # messages that arrived while it was asleep
         self.aborting = False
         for ev in sc.get("events", []):
@@ -217,6 +267,7 @@ class Sim:
         if self.depth > 0:
             self.now = self.now + d
             return
+        self.view.on_main_sleep()
         wake = self.now + d
         limit = self.end if self.end < wake else wake
         while self.queue and self.queue[0][0] <= limit:
@@ -407,6 +458,7 @@ def run(scenario, make_agents=None):
                   RecRhythm(rhythm, sim), user_name=bot_cfg.get("user_name"),
                   server_instance_id=bot_cfg.get("server_id"))
         sim.bot = bot
+        sim.tower = tower
         sim.rhythm = rhythm
         try:
             with tower:
